@@ -206,8 +206,7 @@ def run(prog, tier) -> Result:
         "QuantityMeta.__init__": {"="},
         "QuantityMeta.register_converter": {"append"}, "QuantityMeta.remove_converter": {"remove"},
         "MoneyMeta.register_converter": {"append"}, "MoneyMeta.remove_converter": {"pop"}}, cg))
-    if n < 5:
-        raise AnalysisError(f"R12.4: {n} writers of _converters found (5 confirmed)")
+    res.require("R12.4", 6)
     # no function hands out the list itself (aliasing would bypass the owner API)
     leaks = []
     for fi in prog.all_functions():
@@ -221,5 +220,4 @@ def run(prog, tier) -> Result:
     res.require("R12.1", 3)
     res.require("R12.2", 3)
     res.require("R12.3", 4)
-    res.require("R12.4", 6)
     return res
